@@ -313,6 +313,8 @@ def oracle_C07(case, rec):
         return None
     if case.get("variant") == "start":
         nm = f["eval"]["name"]
+        if rec.get("faults_applied") == 0:
+            return None           # nothing could be poisoned (e.g. a Jacobian / Hessian without stored entries)
         # the first evaluation of each callback happens at the starting point (or at the scaling point before it)
         if k not in ("init_error",) and case["sc"]["kind"] in ("none", "custom"):
             if not (nm == "lag_hess" and k in ("status", "lambda_error") and False):
